@@ -20,7 +20,14 @@ theorem backward_rejected_changes_nothing (E : Engine α) (tensors inputs : List
     (A : Mat α → Except Err (Vec α)) (chunk : Option Int) (retain : Bool) (h : Grads α) (e : Err)
     (herr : (backward E tensors inputs A chunk retain h).err = some e) :
     (backward E tensors inputs A chunk retain h).grads = h := by
-  sorry
+  unfold backward at herr ⊢
+  cases chunk with
+  | none => exact go_rejected E tensors inputs A none retain h e herr
+  | some c =>
+    by_cases hc : c ≤ 0
+    · simp only [hc, if_true]
+    · simp only [hc, if_false] at herr ⊢
+      exact go_rejected E tensors inputs A _ retain h e herr
 
 /-- a parameter that is neither a leaf requiring grad nor retains grad is always rejected, whatever its
     position among valid inputs -/
@@ -29,7 +36,15 @@ theorem backward_bad_param_rejected (E : Engine α) (tensors inputs : List Key)
     (bad : Key) (hb : bad ∈ inputs) (hbad : E.expectsGrad bad = false) :
     (backward E tensors inputs A chunk retain h).err ≠ none ∧
     (backward E tensors inputs A chunk retain h).grads = h := by
-  sorry
+  unfold backward
+  cases chunk with
+  | none => exact go_bad_param E tensors inputs A none retain h bad hb hbad
+  | some c =>
+    by_cases hc : c ≤ 0
+    · simp only [hc, if_true]
+      exact ⟨by simp, trivial⟩
+    · simp only [hc, if_false]
+      exact go_bad_param E tensors inputs A _ retain h bad hb hbad
 
 /-- the argument faults of `mtl_backward` named by the property -/
 def MtlArgFault (E : Engine α) (ndim : Key → Nat) (losses features : List Key)
@@ -48,7 +63,25 @@ theorem mtl_rejected_changes_nothing (E : Engine α) (ndim : Key → Nat) (losse
     (mtlBackward E ndim losses features tps shared A chunk retain h).err = some Err.value ∧
     (mtlBackward E ndim losses features tps shared A chunk retain h).grads = h ∧
     (mtlBackward E ndim losses features tps shared A chunk retain h).sweeps = [] := by
-  sorry
+  rcases mtlBackward_cases E ndim losses features tps shared A chunk retain h with ⟨-, heq⟩ | ⟨hok, -⟩
+  · rw [heq]
+    exact ⟨rfl, rfl, rfl⟩
+  · exfalso
+    obtain ⟨h1, h2, h3, h4, h5, h6, h7, h8, h9, h10⟩ := hok
+    rcases hf with ⟨c, hc, hc0⟩ | hf | hf | ⟨l, hl, hd⟩ | hf | ⟨p, hp, hps⟩ | ⟨tp, htp, hd⟩ | hf | hf |
+      ⟨p, hp, hpe⟩
+    · have := h1 c hc; omega
+    · exact h2 hf
+    · exact h5 hf
+    · have := h4 l hl; omega
+    · exact hf h6
+    · exact h3 p hp hps
+    · exact hd (h8 tp htp)
+    · exact hf h9
+    · exact hf h10
+    · have := h7 p hp
+      rw [hpe] at this
+      cases this
 
 /-- the faults of `backward` named by the property are all reported as `ValueError` -/
 theorem backward_arg_faults (E : Engine α) (tensors inputs : List Key)
@@ -56,13 +89,40 @@ theorem backward_arg_faults (E : Engine α) (tensors inputs : List Key)
     (hf : (∃ c, chunk = some c ∧ c ≤ 0) ∨ tensors = [] ∨ ¬ tensors.Nodup) :
     (backward E tensors inputs A chunk retain h).err = some Err.value ∧
     (backward E tensors inputs A chunk retain h).sweeps = [] := by
-  sorry
+  unfold backward
+  rcases hf with ⟨c, rfl, hc⟩ | hf
+  · simp only [hc, if_true]
+    exact ⟨trivial, trivial⟩
+  · have hgo : ∀ cn, (backward.go E tensors inputs A retain h cn).err = some Err.value ∧
+        (backward.go E tensors inputs A retain h cn).sweeps = [] := by
+      intro cn
+      unfold backward.go
+      rcases hf with hf | hf
+      · subst hf
+        exact ⟨rfl, rfl⟩
+      · have hd : hasDup tensors = true := by
+          cases hh : hasDup tensors with
+          | true => rfl
+          | false => exact absurd ((hasDup_eq_false_iff tensors).mp hh) hf
+        cases hte : tensors.isEmpty with
+        | true => exact ⟨rfl, rfl⟩
+        | false =>
+          simp only [hd, Bool.false_eq_true, if_false, if_true]
+          exact ⟨trivial, trivial⟩
+    cases chunk with
+    | none => exact hgo none
+    | some c =>
+      by_cases hc : c ≤ 0
+      · simp only [hc, if_true]
+        exact ⟨trivial, trivial⟩
+      · simp only [hc, if_false]
+        exact hgo _
 
 /-- `Accumulate` alone: if any key does not expect a gradient, nothing is written -/
 theorem accumulate_rejected_unchanged (E : Engine α) (g : GDict α) (h : Grads α)
     (hbad : ∃ kv ∈ g, E.expectsGrad kv.1 = false) :
     accumulateT E g h = (h, some Err.value) := by
-  sorry
+  exact accumulateT_rejected E g h hbad
 
 /-- non-vacuity / history: BEFORE the fix the property was false.  `accumulateOld` is the code as it
     was (check and write key by key): a bad key after a good one leaves the good one written. -/
@@ -82,6 +142,6 @@ theorem old_accumulate_partial_write :
                             expectsGrad := fun k => k == 0 }
     let r := accumulateOld E [(0, [5]), (1, [7])] (fun _ => none)
     r.2 = some Err.value ∧ r.1 0 = some [5] := by
-  sorry
+  decide
 
 end Tjd.Props.C20
